@@ -91,7 +91,7 @@ class Mode:
                     span = dom.get("real", 1.5)
                     z = rng.random()
                     # coincident / on-axis values are part of the domain
-                    v = 0.0 if z < 0.08 else rng.uniform(-span, span)
+                    v = 0.0 if z < dom.get("zero_prob", 0.08) else rng.uniform(-span, span)
                     self.env[name] = Fraction(round(v, 6)).limit_denominator(10**6)
             else:
                 # symbols that do not occur in the failed obligation: deterministic filler values
@@ -178,8 +178,9 @@ class Mode:
         self.results.append(r)
         return r
 
-    def eq(self, name, got, exp):
-        """obligation: got == exp as real (complex) numbers for all inputs"""
+    def eq(self, name, got, exp, scale=None):
+        """obligation: got == exp as real (complex) numbers for all inputs (scale: natural magnitude against
+        which a float sample is judged, e.g. the Schwarz scale of an ERI element; irrelevant symbolically)"""
         t = time.time()
         if self.symbolic:
             from . import alg, sym as S
@@ -218,6 +219,8 @@ class Mode:
                              got=alg.fmt(vg, 8), exp=alg.fmt(ve, 8))
         if self.wanted is not None and _nopath(name) != _nopath(self.wanted):
             return None
+        if scale is not None:
+            return self._rec(name, "value", self.kind, 0.0, got=_num(got), exp=_num(exp), scale=_num(scale))
         return self._rec(name, "value", self.kind, 0.0, got=_num(got), exp=_num(exp))
 
     def true(self, name, cond, detail="", backend="run"):
@@ -490,7 +493,13 @@ def _symbols_in(v, depth=0):
 # task execution (worker side)
 
 
+def _tier_of(ref, tier):
+    """'module:Class@quick' pins a premise harness to its quick family in every tier"""
+    return ref.split("@", 1)[1] if "@" in ref else tier
+
+
 def load_harness(ref):
+    ref = ref.split("@", 1)[0]
     modname, cls = ref.split(":")
     mod = importlib.import_module(modname)
     return getattr(mod, cls)()
@@ -519,7 +528,7 @@ def run_task(ref, shape, kind="sym", env=None, wanted=None, sample_seed=None):
         M.wanted = wanted
         if sample_seed is not None:
             M.sample_rng = random.Random(sample_seed)
-            M.sample_domain = getattr(h, "fp_domain", {})
+            M.sample_domain = h.fp_domain_for(shape) if hasattr(h, "fp_domain_for") else getattr(h, "fp_domain", {})
         M.mods = bind.modules()
         if kind == "mp":
             bind.PROXY.pi = M.F.pi
@@ -737,7 +746,7 @@ def run_check(check, tier, seed, jobs=None, extra_bounded=None):
         h = load_harness(ref)
         if getattr(h, "fp_only", False):
             continue
-        for shape in h.shapes(tier):
+        for shape in h.shapes(_tier_of(ref, tier)):
             tasks.append((ref, shape))
     records = []
     fptasks = []
@@ -745,22 +754,50 @@ def run_check(check, tier, seed, jobs=None, extra_bounded=None):
     for ref in check.harnesses:
         h = load_harness(ref)
         if getattr(h, "fp", False):
-            shapes = h.fp_shapes(tier) if hasattr(h, "fp_shapes") else h.shapes(tier)
+            shapes = h.fp_shapes(_tier_of(ref, tier)) if hasattr(h, "fp_shapes") else h.shapes(_tier_of(ref, tier))
+            hq, ht = getattr(h, "fp_nsamp", (None, None))
+            n_here = nsamp if hq is None or "VERIF_FP_SAMPLES" in os.environ else (hq if tier == "quick" else ht)
             for si, shape in enumerate(shapes):
-                for k in range(nsamp):
+                for k in range(n_here):
                     fptasks.append((ref, shape, seed * 1000003 + si * 1009 + k))
-    with ProcessPoolExecutor(max_workers=jobs) as ex:
-        futs = {ex.submit(run_task, ref, shape): (ref, shape) for ref, shape in tasks}
-        for ref, shape, ss in fptasks:
-            futs[ex.submit(run_task, ref, shape, "float", None, None, ss)] = (ref, shape)
-        for fut in as_completed(futs):
-            ref, shape = futs[fut]
-            try:
-                records.append(fut.result())
-            except Exception as e:  # worker died
-                records.append({"harness": ref, "shape": shape, "results": [], "status": "crash",
-                                "error": "worker died: %r" % (e,), "secs": 0})
+    calls = [(ref, shape, "sym", None, None, None) for ref, shape in tasks]
+    calls += [(ref, shape, "float", None, None, ss) for ref, shape, ss in fptasks]
+    records = _run_pool(calls, jobs)
     return summarize(check, tier, seed, records, time.time() - t0, extra_bounded)
+
+
+def _run_pool(calls, jobs):
+    """run the tasks in a process pool; a worker that dies (out of memory) breaks the whole pool, so the
+    unfinished tasks are retried in a fresh, smaller pool; a task that is in flight at two pool failures is
+    reported undecided (resource limit), never as a violation"""
+    from concurrent.futures.process import BrokenProcessPool
+
+    records = []
+    pending = list(enumerate(calls))
+    strikes = {}
+    round_ = 0
+    while pending:
+        workers = max(1, jobs // (2 ** round_))
+        nxt = []
+        with ProcessPoolExecutor(max_workers=workers) as ex:
+            futs = {ex.submit(run_task, *c): (i, c) for i, c in pending}
+            for fut in as_completed(futs):
+                i, c = futs[fut]
+                try:
+                    records.append(fut.result())
+                except BrokenProcessPool:
+                    strikes[i] = strikes.get(i, 0) + 1
+                    if strikes[i] >= 3 or round_ >= 3:
+                        records.append({"harness": c[0], "shape": c[1], "results": [], "status": "undecided", "kind": c[2],
+                                        "error": "worker process died repeatedly (resource limit)", "secs": 0})
+                    else:
+                        nxt.append((i, c))
+                except Exception as e:  # noqa
+                    records.append({"harness": c[0], "shape": c[1], "results": [], "status": "crash", "kind": c[2],
+                                    "error": "worker failed: %r" % (e,), "secs": 0})
+        pending = nxt
+        round_ += 1
+    return records
 
 
 def summarize(check, tier, seed, records, wall, extra_bounded=None):
@@ -791,8 +828,10 @@ def summarize(check, tier, seed, records, wall, extra_bounded=None):
                 if r["status"] == "value":
                     g, e = _parse_num(r["got"]), _parse_num(r["exp"])
                     scale = max(abs(e), 1.0) if not getattr(hobj, "fp_relative", False) else max(abs(e), abs(g), 1e-300)
+                    if r.get("scale") is not None:
+                        scale = abs(_parse_num(r["scale"]))
                     err = abs(g - e)
-                    bad = not (err <= tol * scale)
+                    bad = not (err <= tol * scale + 1e-280)  # 1e-280: doubles underflow below that
                     if bad:
                         r = dict(r, status="failed", detail="float64 result %s vs %s (|err| %.3g > %g * %.3g)" % (r["got"], r["exp"], float(err), tol, float(scale)),
                                  cex={"env": rec.get("env", {})})
@@ -882,8 +921,9 @@ def summarize(check, tier, seed, records, wall, extra_bounded=None):
         pass
     vanished = None
     if base and not getattr(check, "filtered", False):
-        if len(records) < base.get("tasks", 0):
-            vanished = "only %d of %d tasks ran" % (len(records), base["tasks"])
+        nsym = sum(1 for r in records if r.get("kind") != "float")
+        if nsym < base.get("tasks", 0):
+            vanished = "only %d of %d symbolic tasks ran" % (nsym, base["tasks"])
         elif not failed and obligations < 0.9 * base.get("obligations", 0):
             vanished = "only %d obligations generated, baseline %d" % (obligations, base["obligations"])
     if violations:
@@ -915,6 +955,7 @@ def summarize(check, tier, seed, records, wall, extra_bounded=None):
             "checker_cmd": "./vcheck %s --tier %s" % (prop, tier),
             "functions_under_contract": check.functions,
             "shapes_run": len(records),
+            "sym_tasks": sum(1 for r in records if r.get("kind") != "float"),
             "tasks": [{"harness": r["harness"], "shape": r["shape"], "obligations": len(r["results"]),
                        "secs": r["secs"], "status": r["status"]} for r in sorted(records, key=lambda r: -r["secs"])[:40]],
             "samples": samples or names[:5],
